@@ -115,7 +115,7 @@ func c04Targets(T *Tape) []c04Target {
 	for k := 0; k < 3; k++ {
 		f := GenFrame(T, GenOpts{Version: v, Requests: T.Bool("req", 0.5), Responses: true, MaxBytes: 400, BigChance: 0.1, Compressible: true, HeaderFlags: true}, int16(1+T.Draw("stream", 100)))
 		if comp != primitive.CompressionNone && T.Bool("compressflag", 0.5) {
-			f.SetCompress(true)
+			markCompressed(T, f)
 		}
 		kind := KindOf(f.Body.Message)
 		var buf bytes.Buffer
